@@ -43,7 +43,8 @@ def inline_md(items, table=False):
             s.append('~~' + inline_md(it.children, table) + '~~')
         elif k == 'code':
             n, pad = docgen._code_delim(it)
-            s.append('`' * n + pad + it.content + pad + '`' * n)
+            content = it.content.replace(' ', '\n', 1) if it.get('nl') else it.content     # a line ending inside a code span reads as a space
+            s.append('`' * n + pad + content + pad + '`' * n)
         elif k in ('link', 'image'):
             s.append(('!' if k == 'image' else '') + '[' + inline_md(it.children, table) + '](' + dest_md(it) + title_md(it) + ')')
         elif k == 'reflink':
@@ -115,6 +116,7 @@ class Writer:
         self.t = t
         self.canonical = bool(opts.get('canonical'))
         self.exclude = set(opts.get('exclude') or ())
+        self.at_doc_level = False
         self.lazy_used = 0
 
     def para_lines(self, b, first_indent):
@@ -139,6 +141,7 @@ class Writer:
                 b.a['indent'] = 0           # more indentation would make the block part of the last item
             if first_in_item:
                 b.a['indent'] = 0           # the marker padding already counts
+            self.at_doc_level = doc_level       # column 0: tabs can stand for a known number of columns
             bl = self.block(b, prev, first_in_item, bullet if first_in_item else None)
             if prev is not None:
                 need = need_blank(prev, b)
@@ -172,7 +175,8 @@ class Writer:
             text = inline_md(b.inl)
             line = ind + '#' * b.level
             if text:
-                line += ' ' * b.sp + text
+                # a tab may stand between the opening sequence and the text (it is stripped like the spaces)
+                line += ('\t' if (b.get('sp_tab') and 'tabs' not in self.exclude) else ' ' * b.sp) + text
             if b.closing:
                 line += ' ' * (b.csp if text else max(1, b.csp)) + b.closing
             line += b.trail
@@ -201,7 +205,11 @@ class Writer:
                 out.append(L(ind + b.ch * (b.n + b.cextra) + b.ctrail))
             return out
         if k == 'icode':
-            return [L('    ' + l, False, [b] if i == 0 else None) for i, l in enumerate(b.lines)]
+            lead = '    '
+            if self.at_doc_level and not self.canonical and 'tabs' not in self.exclude:
+                # at column 0 a tab, or up to three spaces and a tab, is the same indentation
+                lead = t.choice(['    ', '    ', '\t', ' \t', '   \t'])
+            return [L((lead if l.strip() else '    ') + l, False, [b] if i == 0 else None) for i, l in enumerate(b.lines)]
         if k == 'htmlblock':
             return [L(l, False, [b] if i == 0 else None, False) for i, l in enumerate(b.lines)]
         if k == 'defs':
@@ -220,12 +228,15 @@ class Writer:
                 else:
                     first += ' ' + dest
                 if title:
+                    tl = title.split('\n')          # a title may run over several lines (no blank one)
                     if d.get('title_nl'):
-                        rest.append(ci + title)
+                        rest.append(ci + tl[0])
                     elif rest:
-                        rest[-1] += ' ' + title
+                        rest[-1] += ' ' + tl[0]
                     else:
-                        first += ' ' + title
+                        first += ' ' + tl[0]
+                    for more in tl[1:]:
+                        rest.append(more)       # (its indentation is part of the title: reference parsers work on the raw paragraph text)
                 out.append(L(first, False, [b] if not out else None))
                 for r in rest:
                     out.append(L(r, False))
@@ -308,6 +319,7 @@ class Writer:
             out[0].starts = [b] + (out[0].starts or [])
             return out
         if k == 'list':
+            list_doc_level = self.at_doc_level      # (nested calls overwrite the attribute)
             out = []
             num = b.start
             loose = b.loose
@@ -349,7 +361,11 @@ class Writer:
                         item_lines.append(self._item_line(rec, w))
                 else:
                     first = inner[0]
-                    item_lines.append(L(ind + marker + ' ' * it.pad + first.text, False, [it] + (first.starts or []), False, False))
+                    padding = ' ' * it.pad
+                    if (list_doc_level and ind == '' and not self.canonical and 'tabs' not in self.exclude
+                            and it.pad == 4 - len(marker) % 4 and t.chance(100)):
+                        padding = '\t'     # from column len(marker) a tab reaches the same column as the spaces
+                    item_lines.append(L(ind + marker + padding + first.text, False, [it] + (first.starts or []), False, False))
                     for rec in inner[1:]:
                         item_lines.append(self._item_line(rec, w))
                 if idx and loose:
